@@ -181,7 +181,7 @@ def probe_gate(native):
         for e in (None, 0, 1, 2, 3):
             level = 2 if e is None else e
             caps = {}
-            for v in (1, 2, 10, 27, 40):
+            for v in (1, 2, 3, 6, 8, 10, 27, 40):
                 n = 0
                 while iso.fits(v, iso.LEVELS[level], iso.MODES[m], n + 1):
                     n += 1 if n < 64 else 64
@@ -192,21 +192,22 @@ def probe_gate(native):
             n_l = capL
             while iso.fits(40, 'L', iso.MODES[m], n_l + 1):
                 n_l += 1
-            lengths = sorted({0, 1, caps[1], caps[1] + 1, caps[2] + 1, caps[10] + 1, caps[27] + 1, capL, capL + 1, n_l, n_l + 1})
+            lengths = sorted({0, 1, caps[1], caps[1] + 1, caps[2] + 1, caps[3] + 1, caps[6] + 1, caps[8] + 1, caps[10] + 1, caps[27] + 1, capL, capL + 1, n_l, n_l + 1})
             for n in lengths:
-                for forced in (None, 1, 2, 40):
+                for forced in (None, 1, 2, 3, 6, 8, 40):
                     for mo in (None, m):
                         data = bytes([ch[m]]) * n
                         o2s = lambda x: '-' if x is None else str(x)
                         req = 'build %s %s %s %s -' % (OV.hexs(data), o2s(e), o2s(None if forced is None else forced - 1), o2s(mo))
                         ans = native.ask(req)
-                        auto = iso.min_version(iso.LEVELS[level], iso.MODES[m], n)
+                        em = m if (mo is not None or n > 0) else 0          # the empty input is numeric in automatic mode
+                        auto = iso.min_version(iso.LEVELS[level], iso.MODES[em], n)
                         if auto is None:
                             want = 'ERR EncodedData'
                         elif forced is not None and forced < auto:
                             want = 'ERR SpecifiedVersion'
                         else:
-                            want = 'OK version=%d ecl=%d mode=%d' % ((forced or auto) - 1, level, m)
+                            want = 'OK version=%d ecl=%d mode=%d' % ((forced or auto) - 1, level, em)
                         if ans.startswith('OK'):
                             fl = OV.parse_fields(ans)
                             got = 'OK version=%s ecl=%s mode=%s' % (fl['version'], fl['ecl'], fl['mode'])
